@@ -605,6 +605,15 @@ func TestC03(t *testing.T) {
 			return &C03AllPerms{DT: rapid.SampledFrom([]string{"int8", "int16", "float32", "float64", "complex128", "string", "rec24"}).Draw(rt, "dt"), Shape: shape, Op: op, L: Layout{Root: "rm"}}
 		})
 	}
+	// the copying transpositions of strided views, vector-shaped ones included
+	for _, op := range []string{"SafeT", "pkgTranspose", "T"} {
+		op := op
+		cell(t, "C03", "C03.allperms", "allperms/"+op+"/strided-views", nCases(20, 400), func(rt *rapid.T) Case {
+			shape := rapid.SampledFrom([][]int{{4, 1}, {1, 4}, {3}, {3, 1, 1}, {1, 1, 3}, {2, 3}, {3, 2}, {2, 1, 3}, {2, 2, 2}}).Draw(rt, "shape")
+			lk := rapid.SampledFrom([]string{"stepsliced", "stepsliced", "sliced", "Tsliced", "picked"}).Draw(rt, "lk")
+			return &C03AllPerms{DT: rapid.SampledFrom([]string{"int8", "int16", "float64", "complex128", "string"}).Draw(rt, "dt"), Shape: cloneInts(shape), Op: op, L: genLayoutKind(rt, lk, len(shape), "l")}
+		})
+	}
 	for _, op := range []string{"T", "SafeT", "pkgTranspose", "T+Transpose"} {
 		for rank := 2; rank <= maxRank; rank++ {
 			op, rank := op, rank
@@ -619,7 +628,8 @@ func TestC03(t *testing.T) {
 					}
 				}
 				lk := rapid.SampledFrom([]string{"contig", "sliced", "cmraw"}).Draw(rt, "lk")
-				if (op == "pkgTranspose" || op == "T+Transpose") && lk != "contig" {
+				// (package Transpose copies a view out before it moves anything: row-major views are outside F13)
+				if (op == "T+Transpose" && lk != "contig") || (op == "pkgTranspose" && lk == "cmraw") {
 					rec.Class("excluded:F12/F13")
 					lk = "contig"
 				}
